@@ -11,18 +11,32 @@ import (
 	"golang.org/x/tools/go/ssa"
 )
 
+// pkgKey: short package name, except for non-repository packages whose name collides with a repository package.
+func pkgKey(p *types.Package) string {
+	if p == nil {
+		return "?"
+	}
+	if !strings.HasPrefix(p.Path(), "github.com/dlclark/regexp2") {
+		switch p.Name() {
+		case "syntax", "helpers", "compat", "regexp2":
+			return p.Path()
+		}
+	}
+	return p.Name()
+}
+
 func funcKey(fn *ssa.Function) string {
 	if fn.Pkg == nil {
 		// methods of instantiated generics / wrappers / synthetic
 		if fn.Origin() != nil && fn.Origin().Pkg != nil {
-			return fn.Origin().Pkg.Pkg.Name() + "." + fn.RelString(fn.Origin().Pkg.Pkg)
+			return pkgKey(fn.Origin().Pkg.Pkg) + "." + fn.RelString(fn.Origin().Pkg.Pkg)
 		}
 		if o := fn.Object(); o != nil && o.Pkg() != nil {
-			return o.Pkg().Name() + "." + fn.RelString(o.Pkg())
+			return pkgKey(o.Pkg()) + "." + fn.RelString(o.Pkg())
 		}
 		return fn.String()
 	}
-	return fn.Pkg.Pkg.Name() + "." + fn.RelString(fn.Pkg.Pkg)
+	return pkgKey(fn.Pkg.Pkg) + "." + fn.RelString(fn.Pkg.Pkg)
 }
 
 func (fr *Frame) call(i *ssa.Call, st *State, reach Term) *State {
@@ -336,6 +350,9 @@ func (v *Verifier) evalLocation(env *Env, e SExpr) (*Loc, types.Type) {
 		}
 	case *SSel:
 		base := v.evalSpec(env, x.X)
+		if base.K == KRef && strings.HasPrefix(x.Name, "$") {
+			return v.ghostFieldLoc(env, base, x.Name)
+		}
 		if base.K == KRef {
 			pt := base.T.Underlying().(*types.Pointer).Elem()
 			stt := pt.Underlying().(*types.Struct)
@@ -648,6 +665,13 @@ func (fr *Frame) ret(ins ssa.Instruction, st *State, reach Term, results []Val) 
 			continue
 		}
 		lab = fmt.Sprintf("%s@ret%d", lab, nret)
+		if parts := fr.reachParts[fr.cur]; len(parts) > 2 && len(parts) <= 12 && len(t) > 400 {
+			// a return block reached by many paths: one obligation per incoming path (smaller case splits)
+			for k, pc := range parts {
+				fr.addObl("ensures", fmt.Sprintf("%s;path%d", lab, k), implies(pc, t), en.Text, fmt.Sprintf("%s:%d", shortPath(en.File), en.Line), fr.clauseProps(en), en.Canary)
+			}
+			continue
+		}
 		fr.addObl("ensures", lab, implies(reach, t), en.Text, fmt.Sprintf("%s:%d", shortPath(en.File), en.Line), fr.clauseProps(en), en.Canary)
 	}
 	// frame
